@@ -2,8 +2,10 @@ package main
 
 import (
 	"fmt"
+	"go/constant"
 	"go/token"
 	"go/types"
+	"math/big"
 	"sort"
 	"strings"
 
@@ -626,13 +628,25 @@ func ruleExpiry(c *Ctx) {
 	}
 	rows, bad, und := 0, 0, 0
 	var firstBad string
-	for _, ttl := range []int64{0, 1, 3, 10} {
-		for _, ts := range []int64{0, 5, 100} {
-			for _, now := range []int64{0, 4, 5, 6, 7, 8, 9, 14, 15, 16, 99, 100, 101, 102, 103, 104, 109, 110, 111, 1000} {
-				env := map[ssa.Value]interface{}{f.Params[0]: ttl, f.Params[1]: ts}
+	// The grid has the record's timestamp before, at and after "now" (PutWithTimestamp accepts
+	// timestamps ahead of the clock), TTLs up to the largest uint32 and timestamps beyond 2^32,
+	// so a predicate that is only right when now >= timestamp, or that narrows an operand,
+	// differs from the specification on some row. Integer operations are evaluated with Go's
+	// wrap-around semantics at the static type of each SSA value.
+	ttls := []int64{0, 1, 3, 10, 4294967295}
+	tss := []int64{0, 5, 100, 1700000000, 4294967296 + 5}
+	for _, ttl := range ttls {
+		for _, ts := range tss {
+			nows := []int64{0, 4, 5, 6, 7, 8, 9, 14, 15, 16, 99, 100, 101, 102, 103, 104, 109, 110, 111, 1000, 1699999999, 1700000000, 1700000001,
+				ts - 1, ts, ts + 1, ts + ttl - 1, ts + ttl, ts + ttl + 1, ts + 4294967296, ts + ttl + 4294967296}
+			for _, now := range nows {
+				if now < 0 {
+					continue
+				}
+				env := map[ssa.Value]interface{}{f.Params[0]: normInt(big.NewInt(ttl), f.Params[0].Type()), f.Params[1]: normInt(big.NewInt(ts), f.Params[1].Type())}
 				res, ok := evalFunc(f, env, func(call *ssa.Call) (interface{}, bool) {
 					if cal := call.Call.StaticCallee(); cal != nil && cal.String() == "(time.Time).Unix" {
-						return now, true
+						return big.NewInt(now), true
 					}
 					if cal := call.Call.StaticCallee(); cal != nil && cal.String() == "time.Now" {
 						return "now", true
@@ -694,12 +708,22 @@ func evalFunc(f *ssa.Function, env map[ssa.Value]interface{}, oracle func(*ssa.C
 			if b, ok := constBool(x); ok {
 				return b, true
 			}
-			if i, ok := constInt(x); ok {
-				return i, true
+			if i, ok := constBig(x); ok {
+				return normInt(i, x.Type()), true
 			}
 			return nil, false
 		case *ssa.Convert:
-			return ev(x.X)
+			r, ok := ev(x.X)
+			if !ok {
+				return nil, false
+			}
+			if bi, isInt := r.(*big.Int); isInt {
+				if !isIntegerType(x.Type()) {
+					return nil, false
+				}
+				return normInt(bi, x.Type()), true
+			}
+			return r, true
 		case *ssa.ChangeType:
 			return ev(x.X)
 		}
@@ -726,31 +750,31 @@ func evalFunc(f *ssa.Function, env map[ssa.Value]interface{}, oracle func(*ssa.C
 				if !ok1 || !ok2 {
 					return nil, false
 				}
-				li, lok := l.(int64)
-				ri, rok := r.(int64)
+				li, lok := l.(*big.Int)
+				ri, rok := r.(*big.Int)
 				lb, lbok := l.(bool)
 				rb, rbok := r.(bool)
 				switch {
 				case lok && rok:
 					switch x.Op {
 					case token.ADD:
-						vals[x] = li + ri
+						vals[x] = normInt(new(big.Int).Add(li, ri), x.Type())
 					case token.SUB:
-						vals[x] = li - ri
+						vals[x] = normInt(new(big.Int).Sub(li, ri), x.Type())
 					case token.MUL:
-						vals[x] = li * ri
+						vals[x] = normInt(new(big.Int).Mul(li, ri), x.Type())
 					case token.EQL:
-						vals[x] = li == ri
+						vals[x] = li.Cmp(ri) == 0
 					case token.NEQ:
-						vals[x] = li != ri
+						vals[x] = li.Cmp(ri) != 0
 					case token.LSS:
-						vals[x] = li < ri
+						vals[x] = li.Cmp(ri) < 0
 					case token.LEQ:
-						vals[x] = li <= ri
+						vals[x] = li.Cmp(ri) <= 0
 					case token.GTR:
-						vals[x] = li > ri
+						vals[x] = li.Cmp(ri) > 0
 					case token.GEQ:
-						vals[x] = li >= ri
+						vals[x] = li.Cmp(ri) >= 0
 					default:
 						return nil, false
 					}
@@ -811,3 +835,42 @@ func evalFunc(f *ssa.Function, env map[ssa.Value]interface{}, oracle func(*ssa.C
 }
 
 var _ = sort.Strings
+
+// constBig returns the exact value of an integer constant.
+func constBig(c *ssa.Const) (*big.Int, bool) {
+	if c.Value == nil || c.Value.Kind() != constant.Int {
+		return nil, false
+	}
+	bi, ok := new(big.Int).SetString(c.Value.ExactString(), 10)
+	return bi, ok
+}
+
+// normInt wraps v into the value range of the integer type t (Go's modular arithmetic;
+// int/uint/uintptr are taken as 64-bit, the 32-bit configuration is covered by thorough's GOARCH=386 run
+// through the type sizes of the loaded program).
+func normInt(v *big.Int, t types.Type) *big.Int {
+	b, ok := t.Underlying().(*types.Basic)
+	if !ok || b.Info()&types.IsInteger == 0 {
+		return v
+	}
+	bits := uint(64)
+	switch b.Kind() {
+	case types.Int8, types.Uint8:
+		bits = 8
+	case types.Int16, types.Uint16:
+		bits = 16
+	case types.Int32, types.Uint32:
+		bits = 32
+	case types.UntypedInt, types.UntypedRune:
+		return v
+	}
+	mod := new(big.Int).Lsh(big.NewInt(1), bits)
+	r := new(big.Int).Mod(v, mod) // Mod is Euclidean: 0 <= r < mod
+	if b.Info()&types.IsUnsigned == 0 {
+		half := new(big.Int).Rsh(mod, 1)
+		if r.Cmp(half) >= 0 {
+			r.Sub(r, mod)
+		}
+	}
+	return r
+}
